@@ -22,6 +22,11 @@ def gen_cases(ctx, n):
                            values="mixed" if i % 6 == 5 else "int")      # 1 in 6 over mixed value types (oracles only)
         lv = mc.leaves_of(c)
         fol = [[ctx.rng.choice(lv), ctx.rng.randint(-9, 9)] for _ in range(3)]
+        if i % 3 == 0 and len(c["ops"]) > 3:
+            # a clone made in the middle of the history is kept alive and used after the original went on
+            # (definitions removed / replaced since); it must behave like a fresh manager with ITS definitions
+            c["ops"].insert(ctx.rng.randint(1, len(c["ops"]) - 1), ["clone"])
+            c["ops"].append(["useclone", [[ctx.rng.choice(lv), ctx.rng.randint(-9, 9)] for _ in range(3)]])
         c["ops"].append(["freshcheck", lv, fol])
         cases.append(c)
     return cases
@@ -56,6 +61,10 @@ def oracle(cases, obs):
             if op[0] == "verify" and o["err"] is not None:
                 fails.append((i, k, "verify() failed: " + str(o["err"])))
                 break
+            cl = o.get("clone")
+            if cl and cl.get("problems") and not cl.get("cycle") and taint is None:
+                fails.append((i, k, f"a clone made earlier does not behave like a fresh manager holding its definitions: {cl['problems'][:2]}"))
+                break
             fr = o.get("fresh")
             if fr and "skipped" not in fr:
                 if fr["queries"]:
@@ -78,8 +87,9 @@ def run(ctx):
     cases = CORPUS + gen_cases(ctx, ctx.pick(250, 4000))
     obs = mc.run_impl_cases(cases)
     # the model does not interpret "freshcheck": compare on the history without it
-    mcases = [dict(c, ops=[o for o in c["ops"] if o[0] != "freshcheck"]) for c in cases]
-    mobs = [[o for op, o in zip(c["ops"], ol) if op[0] != "freshcheck"] for c, ol in zip(cases, obs)]
+    SKIP = ("freshcheck", "clone", "useclone")
+    mcases = [dict(c, ops=[o for o in c["ops"] if o[0] not in SKIP]) for c in cases]
+    mobs = [[o for op, o in zip(c["ops"], ol) if op[0] not in SKIP] for c, ol in zip(cases, obs)]
     mism = mc.model_compare(ctx, mcases, mobs, "c03")
     fails = oracle(cases, obs)
     for c in cases:
